@@ -86,6 +86,12 @@ def case(ctx, rnd, i):
             if (flat.pt_frag(s.content), s.open_start, s.open_end) != exp:
                 continue
             slices.append(s)
+            if a < b and rnd.random() < 0.35:
+                from .. import gensteps
+                rr = gensteps.reroot(sd, sp, a, b, leaf, rnd)
+                if rr is not None:
+                    ctx.count("rerooted_slices")
+                    slices.append(rr)
     slices.append(Slice.empty)
     sprof = {}
     for s in slices:
